@@ -51,7 +51,7 @@ pub fn blk_strategy() -> impl Strategy<Value = Blk> {
         3 => Just(1u32),
         10 => 2u32..=64,
         2 => 65u32..=600,
-        1 => 4096u32..=16384,
+        1 => prop_oneof![3 => 4096u32..=16384, 1 => 65_000u32..=140_000],
     ];
     (len, any::<u8>()).prop_map(|(len, fill)| Blk { len, fill })
 }
@@ -83,6 +83,8 @@ pub fn op_strategy() -> impl Strategy<Value = Op> {
         1 => idx_strategy().prop_map(Op::Has),
         1 => Just(Op::Info),
         4 => Just(Op::Reopen),
+        // a batch that takes the log to/over 252..254 blocks (compact-encoding width boundary)
+        1 => (240u32..=256).prop_map(Op::Big),
     ]
 }
 
@@ -521,8 +523,18 @@ impl<E: Env + Clone> WSim<E> {
         match self.policy {
             ObsPolicy::Full => ((0..len + 3).collect(), true),
             ObsPolicy::Windowed => {
-                if full || len <= 24 {
+                if (full && len <= 400) || len <= 24 {
                     ((0..len + 3).collect(), true)
+                } else if full {
+                    // long log: both ends, every 37th index, the touched window
+                    let mut v: Vec<u64> = (0..24).collect();
+                    v.extend((0..len + 3).step_by(37));
+                    v.extend(len.saturating_sub(40)..len + 3);
+                    let (a, b) = self.last_touched;
+                    v.extend(a.saturating_sub(2)..(b + 2).min(len + 3).min(a + 40));
+                    v.sort();
+                    v.dedup();
+                    (v, true)
                 } else {
                     let (a, b) = self.last_touched;
                     let mut v: Vec<u64> = (a.saturating_sub(2)..(b + 2).min(len + 3)).take(40).collect();
